@@ -13,6 +13,7 @@
 from checks import cpusafe
 
 WDM_OPCODE = 66
+STP_OPCODE = 219
 
 
 def failing_lemma(vfile, out):
@@ -47,6 +48,21 @@ def generate(path, mod):
     pending_tbl = False
     skip = ("Step", "op_wdm")
     wdm_ops = [k for k, p in enumerate(M.procs) if p == "op_wdm"]
+    # the routine(s) dispatched from opcode $DB: the only ones allowed to assign the Stopped field (their lemma is stated
+    # with b = false: "Stopped may change"); any OTHER routine that assigns it has no proof (the lemma is generic in b)
+    stp_procs = set([M.procs[STP_OPCODE]]) if len(M.procs) > STP_OPCODE else set()
+
+    # routines Step can reach (directly, through the dispatch table, transitively): only these need a lemma; the other
+    # entry points (Reset, TriggerIRQ, triggerNMI) have their own theorems in C12_<model>.v
+    reach, todo = set(), ["Step"]
+    while todo:
+        n = todo.pop()
+        if n in reach or n not in M.byname:
+            continue
+        reach.add(n)
+        todo += M.callees(M.byname[n])
+        if "tbl_proc" in cpusafe.idents(M.byname[n]["body"]):
+            todo += list(M.procs)
 
     def call(f, extra=""):
         alts = []
@@ -69,13 +85,19 @@ def generate(path, mod):
             out.append(tbl_lemma(M))
             lemmas.append("quiet_tbl_proc")
             pending_tbl = False
-        if name in skip:
+        if name in skip or name not in reach:
             continue
         ps = " ".join(n for n, _ in f["params"])
         callstr = " ".join([name] + [n for n, _ in f["params"]] + ["s"])
-        out.append("Lemma quiet_%s : forall %s s0 s, fext Wcb s0 s -> pres (fun _ s' => fext Wcb s0 s') (%s).\n"
-                   "Proof. intros %s s0 s Hq; cbv beta delta [%s]; cb_run ltac:(%s). Qed.\n"
-                   % (name, ps, callstr, ps, name, call(f)))
+        if name in stp_procs:
+            out.append("(* dispatched from opcode $DB: may assign Stopped *)\n"
+                       "Lemma quiet_%s : forall %s s0 s, fext (Wst false) s0 s -> pres (fun _ s' => fext (Wst false) s0 s') (%s).\n"
+                       "Proof. intros %s s0 s Hq; cbv beta delta [%s]; cb_run ltac:(%s). Qed.\n"
+                       % (name, ps, callstr, ps, name, call(f)))
+        else:
+            out.append("Lemma quiet_%s : forall b %s s0 s, fext (Wst b) s0 s -> pres (fun _ s' => fext (Wst b) s0 s') (%s).\n"
+                       "Proof. intros b %s s0 s Hq; cbv beta delta [%s]; cb_run ltac:(%s). Qed.\n"
+                       % (name, ps, callstr, ps, name, call(f)))
         lemmas.append("quiet_" + name)
     rd = [c for c in ("nRead",) if c in M.byname]
     unf = set(rd)
@@ -84,29 +106,33 @@ def generate(path, mod):
         for c in M.callees(M.byname[r]):
             unf |= set(M.callees(M.byname[c]))
     step = M.byname["Step"]
-    step_call = call(step, "| |- pres _ (tbl_proc _ _) => eapply quiet_tbl_proc; [ eassumption | ]")
-    out.append(EXACT % {"unf": " ".join(sorted(unf)), "mod": mod, "wdm": WDM_OPCODE})
-    lemmas += ["ex_nRead", "ex_cmdRead_imm", "ex_op_wdm", "step_cb_" + mod, "C12_callbacks_" + mod, "C12_callbacks_wdm_" + mod, "C12_callbacks_run_" + mod]
+    step_call = call(step, "| |- pres _ (tbl_proc _ _) => eapply quiet_tbl_proc; [ eassumption | eassumption | ]")
+    out.append(EXACT % {"unf": " ".join(sorted(unf)), "mod": mod, "wdm": WDM_OPCODE, "stp": STP_OPCODE})
+    lemmas += ["ex_nRead", "ex_cmdRead_imm", "ex_op_wdm", "step_cb_" + mod, "C12_callbacks_" + mod, "C12_callbacks_wdm_" + mod, "C12_callbacks_run_" + mod,
+               "C12_step_clause_" + mod, "C12_stop_fetch_" + mod]
     files = {"C12_cbq_%s" % mod: "\n".join(out),
-             "C12_cbs_%s" % mod: STEP_HEADER % {"mod": mod} + STEP % {"mod": mod, "call": step_call, "wdm": WDM_OPCODE},
-             "C12_cb_%s" % mod: THM_HEADER % {"mod": mod} + THEOREMS % {"mod": mod, "wdm": WDM_OPCODE}}
-    return files, {"lemmas": lemmas, "wdm_opcodes": wdm_ops, "functions": len(M.funcs)}
+             "C12_cbs_%s" % mod: STEP_HEADER % {"mod": mod} + STEP % {"mod": mod, "call": step_call, "wdm": WDM_OPCODE, "stp": STP_OPCODE},
+             "C12_cb_%s" % mod: THM_HEADER % {"mod": mod} + THEOREMS % {"mod": mod, "wdm": WDM_OPCODE, "stp": STP_OPCODE}}
+    return files, {"lemmas": lemmas, "wdm_opcodes": wdm_ops, "stp_routines": sorted(stp_procs), "functions": len(M.funcs)}
 
 
 def tbl_lemma(M):
     lines = ["(* the routine of every opcode other than $42 is quiet; $42 is the only opcode dispatched to op_wdm, the only routine",
-             "   that is not (there is no quiet_op_wdm: any other opcode dispatching to it fails here) *)",
-             "Lemma quiet_tbl_proc : forall op s0 s, op <> %d -> fext Wcb s0 s -> pres (fun _ s' => fext Wcb s0 s') (tbl_proc op s)." % WDM_OPCODE,
+             "   that is not (there is no quiet_op_wdm: any other opcode dispatching to it fails here).  With b = true (\"Stopped is",
+             "   preserved\") the opcode must not be $DB: the routine of $DB is the only one whose lemma is stated for b = false *)",
+             "Lemma quiet_tbl_proc : forall b op s0 s, op <> %d -> (b = true -> op <> %d) -> fext (Wst b) s0 s -> pres (fun _ s' => fext (Wst b) s0 s') (tbl_proc op s)." % (WDM_OPCODE, STP_OPCODE),
              "Proof.",
-             "  intros op s0 s Hne Hq. destruct (Z_lt_le_dec op 256) as [Hl|Hl]; [destruct (Z_lt_le_dec op 0) as [Hn|Hn]|].",
+             "  intros b op s0 s Hne Hb Hq. destruct (Z_lt_le_dec op 256) as [Hl|Hl]; [destruct (Z_lt_le_dec op 0) as [Hn|Hn]|].",
              "  - destruct op; try lia. exact I.",
-             "  - revert s Hq Hne. pattern op. apply all_bytes; [|unfold rng; change (2 ^ 8) with 256; lia].",
+             "  - revert s Hq Hne Hb. pattern op. apply all_bytes; [|unfold rng; change (2 ^ 8) with 256; lia].",
              "    cbv [upto app Z.of_nat Pos.of_succ_nat Pos.succ]."]
     for k, pname in enumerate(M.procs):
         if pname == "op_wdm":
-            lines.append("    apply Forall_cons; [ intros s Hq Hne; exfalso; apply Hne; reflexivity | ].")
+            lines.append("    apply Forall_cons; [ intros s Hq Hne Hb; exfalso; apply Hne; reflexivity | ].")
+        elif k == STP_OPCODE:
+            lines.append("    apply Forall_cons; [ intros s Hq Hne Hb; destruct b; [ exfalso; apply (Hb eq_refl); reflexivity | change (tbl_proc %d s) with (%s s); apply quiet_%s; exact Hq ] | ]." % (k, pname, pname))
         else:
-            lines.append("    apply Forall_cons; [ intros s Hq Hne; change (tbl_proc %d s) with (%s s); apply quiet_%s; exact Hq | ]." % (k, pname, pname))
+            lines.append("    apply Forall_cons; [ intros s Hq Hne Hb; change (tbl_proc %d s) with (%s s); apply quiet_%s; exact Hq | ]." % (k, pname, pname))
     lines += ["    apply Forall_nil.",
               "  - destruct op as [|p|p]; try lia.",
               "    do 8 (destruct p as [p|p|]; [ | | exfalso; lia ]).",
@@ -123,8 +149,9 @@ From Props Require Import SafeLib CpuEqLib CbLib.
 Import ListNotations.
 Local Open Scope Z_scope.
 
-(* fields a quiet routine may assign: all but the record of where the current opcode was fetched from *)
-Definition Wcb (f : N) : bool := negb (N.eqb f f_PPC || N.eqb f f_PRK).
+(* fields a quiet routine may assign: all but the record of where the current opcode was fetched from and - when b = true -
+   the Stopped field.  Every routine lemma is generic in b, except the routine of opcode $DB (b = false) *)
+Definition Wst (b : bool) (f : N) : bool := negb (N.eqb f f_PPC || N.eqb f f_PRK || (N.eqb f f_Stopped && b)).
 """
 
 STEP_HEADER = """(* GENERATED per run by checks/cpucb.py: the callbacks clause of C12 over the regenerated model %(mod)s: Step *)
@@ -186,7 +213,8 @@ Qed.
 (* WDM: reads its operand, stores it in the WDM field, and calls OnWDM - iff one is registered - with that byte *)
 Definition wdm_post (a : Z) (s s' : st) : Prop :=
   exists v, trace s' = (if onwdm s then [EvWDM v] else []) ++ EvR a v :: trace s /\\ get f_WDM s' = v /\\
-            onpc s' = onpc s /\\ onwdm s' = onwdm s /\\ get f_PPC s' = get f_PPC s /\\ get f_PRK s' = get f_PRK s.
+            onpc s' = onpc s /\\ onwdm s' = onwdm s /\\ get f_PPC s' = get f_PPC s /\\ get f_PRK s' = get f_PRK s /\\
+            get f_Stopped s' = get f_Stopped s.
 
 Lemma ex_op_wdm : forall s, get f_StepInfo_Mode s = 5 ->
   pres (fun _ s' => wdm_post (w_or (shl32 (get f_RK s) 16) (get f_StepInfo_Addr s)) s s') (op_wdm s).
@@ -197,7 +225,7 @@ Proof.
   cbv beta iota zeta delta [bind cb_absent_OnWDM cb_call_OnWDM].
   change (onwdm (set f_WDM v (log (EvR (w_or (shl32 (get f_RK s) 16) (get f_StepInfo_Addr s)) v) s))) with (onwdm s).
   unfold wdm_post. destruct (onwdm s) eqn:Ew; cbv beta iota delta [negb pres]; exists v; gs;
-  (split; [reflexivity|]); (split; [reflexivity|]); (split; [reflexivity|]); (split; [simpl; congruence|]); split; reflexivity.
+  (split; [reflexivity|]); (split; [reflexivity|]); (split; [reflexivity|]); (split; [simpl; congruence|]); (split; [reflexivity|]); split; reflexivity.
 Qed.
 """
 
@@ -229,7 +257,7 @@ Ltac wdm_run :=
 (* from the OnPC lookup to the end of Step; s0 = the state Step started from, s1 = after the interrupt switch *)
 Ltac step_fetch :=
   lazymatch goal with
-  | Hq : fext Wcb ?s0 ?s1 |- pres (fun _ s' => step_cb _ _ _ ?s0 s') (bind (cb_pc ?A ?s1) ?K) =>
+  | Hq : fext (Wst true) ?s0 ?s1 |- pres (fun _ s' => step_cb _ _ _ _ ?s0 s') (bind (cb_pc ?A ?s1) ?K) =>
       let Q := lazymatch goal with |- pres ?Q _ => Q end in
       change (pres Q (K tt (if onpc s1 A then log (EvPC A) s1 else s1))); cbv beta;
       repeat lazymatch goal with
@@ -243,10 +271,10 @@ Ltac step_fetch :=
           cbv beta iota delta [exact_read] in Hx;
           change (pres Q (K2 op s6)); cbv beta;
           let Hf := fresh "Hf" in let Hpc := fresh "Hpc" in let Hrk := fresh "Hrk" in
-          assert (Hf : fetched f_PPC f_PRK s0 s6 op)
-            by (subst s6; eapply (fetched_intro f_PPC f_PRK Wcb s0 s1 _ A); [ exact Hq | | | | ];
+          assert (Hf : fetched f_PPC f_PRK f_Stopped s0 s6 op)
+            by (subst s6; eapply (fetched_intro f_PPC f_PRK f_Stopped (Wst true) s0 s1 _ A); [ exact Hq | reflexivity | | | | | ];
                 [ destruct (onpc s1 A); reflexivity | destruct (onpc s1 A); reflexivity
-                | destruct (onpc s1 A); reflexivity | unfold fetch_addr; gs; reflexivity ]);
+                | destruct (onpc s1 A); reflexivity | gs; reflexivity | unfold fetch_addr; gs; reflexivity ]);
           assert (Hpc : get f_PPC s6 = get f_PC s6) by (subst s6; gs; reflexivity);
           assert (Hrk : get f_PRK s6 = get f_RK s6) by (subst s6; gs; reflexivity);
           clear Hx Hq;
@@ -262,30 +290,62 @@ Ltac step_fetch :=
                 change (pres Q (K3 u s7)); cbv beta; wdm_run;
                 cbv beta iota delta [pres wdm_post] in Hw |- *;
                 let v := fresh "v" in let Et := fresh "Et" in let Ev := fresh "Ev" in let Ep := fresh "Ep" in
-                let Ed := fresh "Ed" in let E1 := fresh "E1" in let E2 := fresh "E2" in
-                destruct Hw as (v & Et & Ev & Ep & Ed & E1 & E2);
-                eapply (step_cb_wdm f_PPC f_PRK f_WDM s0 s6 _ v Hf);
+                let Ed := fresh "Ed" in let E1 := fresh "E1" in let E2 := fresh "E2" in let E3 := fresh "E3" in
+                destruct Hw as (v & Et & Ev & Ep & Ed & E1 & E2 & E3);
+                eapply (step_cb_wdm f_PPC f_PRK f_WDM f_Stopped s0 s6 _ v Hf);
                 [ unfold fetch_addr; gs; rewrite E1, E2; gs; reflexivity
                 | exact Ep | exact Ed
                 | unfold operand_addr; gs; rewrite E1, E2; gs; rewrite Hpc, Hrk; exact Et
-                | gs; exact Ev ]
+                | gs; exact Ev
+                | gs; rewrite E3; gs; reflexivity ]
             end
-          | eapply pres_weaken;
-            [ pose proof (fext_refl Wcb s6) as Hq; cb_run ltac:(step_call)
+          | (* b: "this opcode must leave Stopped alone" = the opcode is not $DB *)
+            let b := fresh "b" in let Hb1 := fresh "Hb" in let Hb2 := fresh "Hb" in
+            pose (b := negb (op =? %(stp)d));
+            assert (Hb1 : b = true -> op <> %(stp)d) by (unfold b; intros Hx Hy; rewrite Hy in Hx; discriminate Hx);
+            assert (Hb2 : op <> %(stp)d -> Wst b f_Stopped = false)
+              by (unfold b; intro Hx; apply Z.eqb_neq in Hx; rewrite Hx; reflexivity);
+            clearbody b;
+            eapply pres_weaken;
+            [ pose proof (fext_refl (Wst b) s6) as Hq; cb_run ltac:(step_call)
             | let r := fresh "r" in let s' := fresh "s" in let Hs := fresh "Hs" in
-              intros r s' Hs; exact (step_cb_quiet f_PPC f_PRK f_WDM Wcb s0 s6 op s' eq_refl eq_refl Hf Hne Hs) ] ]
+              intros r s' Hs; exact (step_cb_quiet f_PPC f_PRK f_WDM f_Stopped (Wst b) s0 s6 op s' eq_refl eq_refl Hb2 Hf Hne Hs) ] ]
       end
   end.
 
 Ltac cb_hook ::= step_fetch.
 
-Lemma step_cb_%(mod)s : forall s, pres (fun _ s' => step_cb f_PPC f_PRK f_WDM s s') (Step s).
-Proof. intro s; pose proof (fext_refl Wcb s) as Hq; cbv beta delta [Step]; cb_run ltac:(step_call). Qed.
+Lemma step_cb_%(mod)s : forall s, pres (fun _ s' => step_cb f_PPC f_PRK f_WDM f_Stopped s s') (Step s).
+Proof. intro s; pose proof (fext_refl (Wst true) s) as Hq; cbv beta delta [Step]; cb_run ltac:(step_call). Qed.
 
 Ltac cb_hook ::= fail.
 """
 
 THEOREMS = """
+(* the callbacks clause and, for the SAME fetched opcode, "the Stopped field changes only in a step that fetched $DB":
+   step_clause (Props/CbLib.v) = callbacks_clause with, under the same witnesses tA tC opcode v, the conjunct
+   (get f_Stopped s' <> get f_Stopped s -> opcode = 219) *)
+Theorem C12_step_clause_%(mod)s : forall s, Inv (Bty fwidth) s -> forall r s', Step s = Ok r s' ->
+  step_clause f_PPC f_PRK f_WDM f_Stopped s s'.
+Proof.
+  intros s Hi r s' HS.
+  pose proof (step_cb_%(mod)s s) as Hc. pose proof (C08_%(mod)s.C08_step_%(mod)s s Hi) as H8.
+  rewrite HS in Hc, H8. cbv beta iota delta [pres safe] in Hc, H8.
+  apply step_clause_intro; [ | | exact Hc ].
+  - pose proof (inv_bty_get fwidth f_PRK s' 8 H8 eq_refl ltac:(discriminate)) as Hr. exact Hr.
+  - pose proof (inv_bty_get fwidth f_PPC s' 16 H8 eq_refl ltac:(discriminate)) as Hr. exact Hr.
+Qed.
+
+(* C12 (ii), "and never before", tied to the fetched opcode: a Step that changes the Stopped field fetched - after interrupt
+   entry tA and the OnPC callback - the opcode $DB from a = PBR:PC *)
+Theorem C12_stop_fetch_%(mod)s : forall s, Inv (Bty fwidth) s -> forall r s', Step s = Ok r s' ->
+  let a := get f_PRK s' * 65536 + get f_PPC s' in
+  let pc := if onpc s a then [EvPC a] else [] in
+  exists tA tC opcode,
+    trace s' = tC ++ pc ++ tA ++ trace s /\\ cbs tA = [] /\\ (exists tC', tC = tC' ++ [EvR a opcode]) /\\
+    (get f_Stopped s' <> get f_Stopped s -> opcode = %(stp)d).
+Proof. intros s Hi r s' HS. exact (step_clause_stop f_PPC f_PRK f_WDM f_Stopped s s' (C12_step_clause_%(mod)s s Hi r s' HS)). Qed.
+
 (* C12, callbacks clause, one Step from ANY state with fields in their Go types (pending interrupts included).
    callbacks_clause (Props/CbLib.v) unfolded:
      onpc s' = onpc s /\\ onwdm s' = onwdm s /\\
@@ -299,14 +359,7 @@ THEOREMS = """
        (opcode = 66 -> tC = wdm ++ [EvR a1 v; EvR a opcode] /\\ WDM s' = v)   (OnWDM receives exactly the operand byte) *)
 Theorem C12_callbacks_%(mod)s : forall s, Inv (Bty fwidth) s -> forall r s', Step s = Ok r s' ->
   callbacks_clause f_PPC f_PRK f_WDM s s'.
-Proof.
-  intros s Hi r s' HS.
-  pose proof (step_cb_%(mod)s s) as Hc. pose proof (C08_%(mod)s.C08_step_%(mod)s s Hi) as H8.
-  rewrite HS in Hc, H8. cbv beta iota delta [pres safe] in Hc, H8.
-  apply callbacks_clause_intro; [ | | exact Hc ].
-  - pose proof (inv_bty_get fwidth f_PRK s' 8 H8 eq_refl ltac:(discriminate)) as Hr. exact Hr.
-  - pose proof (inv_bty_get fwidth f_PPC s' 16 H8 eq_refl ltac:(discriminate)) as Hr. exact Hr.
-Qed.
+Proof. intros s Hi r s' HS. exact (step_clause_callbacks f_PPC f_PRK f_WDM f_Stopped s s' (C12_step_clause_%(mod)s s Hi r s' HS)). Qed.
 
 (* the same with every definition unfolded: the statement one reads *)
 Theorem C12_callbacks_%(mod)s_explicit : forall s, Inv (Bty fwidth) s -> forall r s', Step s = Ok r s' ->
@@ -340,7 +393,7 @@ Proof. intros s Hi r s' HS. exact (callbacks_clause_wdm f_PPC f_PRK f_WDM s s' (
 (* the contract of Props/CbLib.v, section Runs *)
 Lemma good_step_%(mod)s : forall s r s', Inv (Bty fwidth) s -> Step s = Ok r s' -> Inv (Bty fwidth) s'.
 Proof. intros s r s' Hi HS. pose proof (C08_%(mod)s.C08_step_%(mod)s s Hi) as H8. rewrite HS in H8. exact H8. Qed.
-Lemma cb_step_ok_%(mod)s : forall s r s', Inv (Bty fwidth) s -> Step s = Ok r s' -> step_cb f_PPC f_PRK f_WDM s s'.
+Lemma cb_step_ok_%(mod)s : forall s r s', Inv (Bty fwidth) s -> Step s = Ok r s' -> step_cb f_PPC f_PRK f_WDM f_Stopped s s'.
 Proof. intros s r s' _ HS. pose proof (step_cb_%(mod)s s) as Hc. rewrite HS in Hc. exact Hc. Qed.
 
 (* along n steps (l = the states after each step): registrations unchanged, and for every address a the number of
@@ -349,7 +402,7 @@ Proof. intros s r s' _ HS. pose proof (step_cb_%(mod)s s) as Hc. rewrite HS in H
 Theorem C12_callbacks_run_%(mod)s : forall n s l, Inv (Bty fwidth) s -> states Step n s = Some l ->
   onpc (final s l) = onpc s /\\ onwdm (final s l) = onwdm s /\\ Inv (Bty fwidth) (final s l) /\\
   forall a, count_pc a (trace (final s l)) = count_pc a (trace s) + (if onpc s a then fetched_at f_PPC f_PRK a l else 0).
-Proof. exact (run_count Step (Inv (Bty fwidth)) f_PPC f_PRK f_WDM good_step_%(mod)s cb_step_ok_%(mod)s). Qed.
+Proof. exact (run_count Step (Inv (Bty fwidth)) f_PPC f_PRK f_WDM f_Stopped good_step_%(mod)s cb_step_ok_%(mod)s). Qed.
 
 (* [states] agrees with the run function of C08_run / C02_run_eq: it succeeds exactly when [run] does *)
 Lemma states_run_%(mod)s : forall n s, (exists l, states Step n s = Some l) <-> (exists rs s', run Step n s = Ok rs s').
@@ -400,6 +453,173 @@ Example ex_step : exists pushes, ex_obs =
   /\\ cbs pushes = [] /\\ onpc ex_state 4660 = true /\\ onpc ex_state 32768 = false.
 Proof. eexists. split; [vm_compute; reflexivity|]. split; [reflexivity|]. split; reflexivity. Qed.
 
-Definition C12_callbacks_all_%(mod)s := (C12_callbacks_%(mod)s, C12_callbacks_%(mod)s_explicit, C12_callbacks_safe_%(mod)s, C12_callbacks_wdm_%(mod)s, C12_callbacks_run_%(mod)s, ex_good, ex_step).
+Definition C12_callbacks_all_%(mod)s := (C12_step_clause_%(mod)s, C12_stop_fetch_%(mod)s, C12_callbacks_%(mod)s, C12_callbacks_%(mod)s_explicit, C12_callbacks_safe_%(mod)s, C12_callbacks_wdm_%(mod)s, C12_callbacks_run_%(mod)s, ex_good, ex_step).
 Print Assumptions C12_callbacks_all_%(mod)s.
 """
+
+
+# per-run file C12_stop.v: "never before" tied to the fetched opcode (one Step) and over histories, both models
+STOP_V = """(* GENERATED per run by checks/cpucb.py: C12 (ii) "and never before", tied to the FETCHED OPCODE, over both regenerated models *)
+From Coq Require Import ZArith List Bool NArith.
+From Lib Require Import ZOps Machine.
+From Gen Require Import GenFields.
+From Gen Require GenCpu65 GenCpuAlt.
+From Props Require Import SafeLib CbLib StopProps.
+From Run Require C12_GenCpu65 C12_GenCpuAlt C12_cb_GenCpu65 C12_cb_GenCpuAlt.
+Import ListNotations.
+Local Open Scope Z_scope.
+
+(* the interpreters' entry points as the partial functions of Props/StopProps.v (same definitions as in C12_run.v, repeated
+   here so that the two files compile in parallel) *)
+Definition ostep (f : st -> res (Z * bool)) (s : st) : option (bool * st) :=
+  match f s with Ok (_, b) s' => Some (b, s') | Panic => None end.
+Definition ocall (f : st -> res unit) (s : st) : option st :=
+  match f s with Ok _ s' => Some s' | Panic => None end.
+Definition stoppedb (s : st) : bool := z2b (get f_Stopped s).
+
+(* "the Step issued at s fetches opcode $DB": it does not panic and its trace is  tC' ++ [EvR a 219] ++ pc ++ tA ++ trace s
+   with a = PBR:PC of the fetch, pc the OnPC callback iff registered at a, tA the interrupt entry (no callback) *)
+Definition fetches_stp (Step : st -> res (Z * bool)) (s : st) : Prop :=
+  match Step s with
+  | Ok _ s' =>
+      let a := get f_PRK s' * 65536 + get f_PPC s' in
+      exists tA tC', trace s' = (tC' ++ [EvR a %(stp)d]) ++ (if onpc s a then [EvPC a] else []) ++ tA ++ trace s /\\ cbs tA = []
+  | Panic => False
+  end.
+
+Section OneModel.
+  Variables (Step : st -> res (Z * bool)) (Reset TriggerIRQ triggerNMI : st -> res unit).
+  Hypothesis Hstep : forall s, Inv (Bty fwidth) s ->
+    safe (fun r s' => (exists c, r = (c, z2b (get f_Stopped s')) /\\ 1 <= c <= 255 /\\
+                       get f_AllCycles s' = add64 (get f_AllCycles s) c /\\
+                       (get f_Stopped s' = get f_Stopped s \\/ get f_Stopped s' = 1)) /\\ Inv (Bty fwidth) s') (Step s).
+  Hypothesis Hreset : forall s, Inv (Bty fwidth) s -> safe (fun _ s' => get f_Stopped s' = 0 /\\ Inv (Bty fwidth) s') (Reset s).
+  Hypothesis Hirq : forall s, Inv (Bty fwidth) s -> safe (fun _ s' => get f_Stopped s' = get f_Stopped s /\\ Inv (Bty fwidth) s') (TriggerIRQ s).
+  Hypothesis Hnmi : forall s, Inv (Bty fwidth) s -> safe (fun _ s' => get f_Stopped s' = get f_Stopped s /\\ Inv (Bty fwidth) s') (triggerNMI s).
+  Hypothesis Hfetch : forall s, Inv (Bty fwidth) s -> forall r s', Step s = Ok r s' ->
+    let a := get f_PRK s' * 65536 + get f_PPC s' in
+    let pc := if onpc s a then [EvPC a] else [] in
+    exists tA tC opcode,
+      trace s' = tC ++ pc ++ tA ++ trace s /\\ cbs tA = [] /\\ (exists tC', tC = tC' ++ [EvR a opcode]) /\\
+      (get f_Stopped s' <> get f_Stopped s -> opcode = %(stp)d).
+
+  Lemma c_step : forall s, Inv (Bty fwidth) s ->
+    exists b s', ostep Step s = Some (b, s') /\\ Inv (Bty fwidth) s' /\\ b = stoppedb s' /\\ (stoppedb s' = stoppedb s \\/ stoppedb s' = true).
+  Proof.
+    intros s H. pose proof (Hstep s H) as HS. unfold ostep. destruct (Step s) as [[n b] s'|]; simpl in HS; [|contradiction].
+    destruct HS as [(c & Hr & _ & _ & Hs) Hi]. inversion Hr; subst. exists (z2b (get f_Stopped s')), s'.
+    split; [reflexivity|]. split; [exact Hi|]. split; [reflexivity|]. unfold stoppedb.
+    destruct Hs as [Hs|Hs]; rewrite Hs; [left | right]; reflexivity.
+  Qed.
+  Lemma c_reset : forall s, Inv (Bty fwidth) s -> exists s', ocall Reset s = Some s' /\\ Inv (Bty fwidth) s' /\\ stoppedb s' = false.
+  Proof.
+    intros s H. pose proof (Hreset s H) as HS. unfold ocall. destruct (Reset s) as [u s'|]; simpl in HS; [|contradiction].
+    destruct HS as [Hs Hi]. exists s'. split; [reflexivity|]. split; [exact Hi|]. unfold stoppedb. rewrite Hs. reflexivity.
+  Qed.
+  Lemma c_keep (f : st -> res unit) : (forall s, Inv (Bty fwidth) s -> safe (fun _ s' => get f_Stopped s' = get f_Stopped s /\\ Inv (Bty fwidth) s') (f s)) ->
+    forall s, Inv (Bty fwidth) s -> exists s', ocall f s = Some s' /\\ Inv (Bty fwidth) s' /\\ stoppedb s' = stoppedb s.
+  Proof.
+    intros Hf s H. pose proof (Hf s H) as HS. unfold ocall. destruct (f s) as [u s'|]; simpl in HS; [|contradiction].
+    destruct HS as [Hs Hi]. exists s'. split; [reflexivity|]. split; [exact Hi|]. unfold stoppedb. rewrite Hs. reflexivity.
+  Qed.
+
+  (* one Step: the Stopped field changes only when the fetched opcode is $DB, and then to 1 *)
+  Theorem stop_only_stp : forall s, Inv (Bty fwidth) s -> forall r s', Step s = Ok r s' ->
+    let a := get f_PRK s' * 65536 + get f_PPC s' in
+    let pc := if onpc s a then [EvPC a] else [] in
+    exists tA tC opcode,
+      trace s' = tC ++ pc ++ tA ++ trace s /\\ cbs tA = [] /\\ (exists tC', tC = tC' ++ [EvR a opcode]) /\\
+      (get f_Stopped s' <> get f_Stopped s -> opcode = %(stp)d /\\ get f_Stopped s' = 1).
+  Proof.
+    intros s Hi r s' HS. destruct (Hfetch s Hi r s' HS) as (tA & tC & o & E & CA & EC & H).
+    exists tA, tC, o. split; [exact E|]. split; [exact CA|]. split; [exact EC|].
+    intro Hne. split; [exact (H Hne)|].
+    pose proof (Hstep s Hi) as H12. rewrite HS in H12. cbv beta iota delta [safe] in H12.
+    destruct H12 as [(c & _ & _ & _ & [Hs|Hs]) _]; [contradiction | exact Hs].
+  Qed.
+
+  (* the contract clause of Props/StopProps.v *)
+  Lemma c_stp : forall s b s', Inv (Bty fwidth) s -> ostep Step s = Some (b, s') -> stoppedb s' <> stoppedb s -> fetches_stp Step s.
+  Proof.
+    intros s b s' Hi E Hne. unfold ostep in E. unfold fetches_stp.
+    destruct (Step s) as [[n b0] s1|] eqn:HS; [|discriminate E]. inversion E; subst b0 s1.
+    destruct (Hfetch s Hi (n, b) s' HS) as (tA & tC & o & Et & CA & [tC' EC] & H).
+    assert (Ho : o = %(stp)d) by (apply H; intro Hx; apply Hne; unfold stoppedb; rewrite Hx; reflexivity).
+    subst o. exists tA, tC'. rewrite <- EC. split; [exact Et | exact CA].
+  Qed.
+
+  Notation HRUN := (hrun st (ostep Step) (ocall Reset) (ocall TriggerIRQ) (ocall triggerNMI)).
+  Notation NOSTP := (no_stp st (ostep Step) (ocall Reset) (ocall TriggerIRQ) (ocall triggerNMI) (fetches_stp Step)).
+
+  (* histories: from a state that is not stopped, as long as no Step of the history fetches $DB every Step reports false *)
+  Theorem stop_never_before_inst : forall h s, Inv (Bty fwidth) s -> stoppedb s = false -> NOSTP h s ->
+    exists os sf, HRUN h s = Some (os, sf) /\\ Inv (Bty fwidth) sf /\\ stoppedb sf = false /\\ all_false os.
+  Proof.
+    exact (stop_never_before st _ _ _ _ stoppedb (Inv (Bty fwidth)) c_step c_reset
+             (c_keep TriggerIRQ Hirq) (c_keep triggerNMI Hnmi) (fetches_stp Step) c_stp).
+  Qed.
+
+  (* ... and, whatever happened before, after a Reset *)
+  Theorem stop_never_before_since_reset_inst : forall h1 h2 s, Inv (Bty fwidth) s ->
+    exists o1 s1, HRUN (h1 ++ [CReset]) s = Some (o1, s1) /\\ Inv (Bty fwidth) s1 /\\
+      (NOSTP h2 s1 -> exists o2 sf, HRUN h2 s1 = Some (o2, sf) /\\ Inv (Bty fwidth) sf /\\ stoppedb sf = false /\\ all_false o2).
+  Proof.
+    exact (stop_never_before_since_reset st _ _ _ _ stoppedb (Inv (Bty fwidth)) c_step c_reset
+             (c_keep TriggerIRQ Hirq) (c_keep triggerNMI Hnmi) (fetches_stp Step) c_stp).
+  Qed.
+End OneModel.
+
+Theorem C12_stop_only_stp_GenCpu65 : forall s, Inv (Bty fwidth) s -> forall r s', GenCpu65.Step s = Ok r s' ->
+  let a := get f_PRK s' * 65536 + get f_PPC s' in
+  let pc := if onpc s a then [EvPC a] else [] in
+  exists tA tC opcode,
+    trace s' = tC ++ pc ++ tA ++ trace s /\\ cbs tA = [] /\\ (exists tC', tC = tC' ++ [EvR a opcode]) /\\
+    (get f_Stopped s' <> get f_Stopped s -> opcode = %(stp)d /\\ get f_Stopped s' = 1).
+Proof. exact (stop_only_stp GenCpu65.Step C12_GenCpu65.C12_step_GenCpu65 C12_cb_GenCpu65.C12_stop_fetch_GenCpu65). Qed.
+
+Theorem C12_stop_only_stp_GenCpuAlt : forall s, Inv (Bty fwidth) s -> forall r s', GenCpuAlt.Step s = Ok r s' ->
+  let a := get f_PRK s' * 65536 + get f_PPC s' in
+  let pc := if onpc s a then [EvPC a] else [] in
+  exists tA tC opcode,
+    trace s' = tC ++ pc ++ tA ++ trace s /\\ cbs tA = [] /\\ (exists tC', tC = tC' ++ [EvR a opcode]) /\\
+    (get f_Stopped s' <> get f_Stopped s -> opcode = %(stp)d /\\ get f_Stopped s' = 1).
+Proof. exact (stop_only_stp GenCpuAlt.Step C12_GenCpuAlt.C12_step_GenCpuAlt C12_cb_GenCpuAlt.C12_stop_fetch_GenCpuAlt). Qed.
+
+Theorem C12_stop_never_before_GenCpu65 : forall h s, Inv (Bty fwidth) s -> stoppedb s = false ->
+  no_stp st (ostep GenCpu65.Step) (ocall GenCpu65.Reset) (ocall GenCpu65.TriggerIRQ) (ocall GenCpu65.triggerNMI) (fetches_stp GenCpu65.Step) h s ->
+  exists os sf, hrun st (ostep GenCpu65.Step) (ocall GenCpu65.Reset) (ocall GenCpu65.TriggerIRQ) (ocall GenCpu65.triggerNMI) h s = Some (os, sf) /\\
+                Inv (Bty fwidth) sf /\\ stoppedb sf = false /\\ all_false os.
+Proof.
+  exact (stop_never_before_inst _ _ _ _ C12_GenCpu65.C12_step_GenCpu65 C12_GenCpu65.C12_reset_GenCpu65 C12_GenCpu65.C12_irq_GenCpu65
+           C12_GenCpu65.C12_nmi_GenCpu65 C12_cb_GenCpu65.C12_stop_fetch_GenCpu65).
+Qed.
+Theorem C12_stop_never_before_GenCpuAlt : forall h s, Inv (Bty fwidth) s -> stoppedb s = false ->
+  no_stp st (ostep GenCpuAlt.Step) (ocall GenCpuAlt.Reset) (ocall GenCpuAlt.TriggerIRQ) (ocall GenCpuAlt.triggerNMI) (fetches_stp GenCpuAlt.Step) h s ->
+  exists os sf, hrun st (ostep GenCpuAlt.Step) (ocall GenCpuAlt.Reset) (ocall GenCpuAlt.TriggerIRQ) (ocall GenCpuAlt.triggerNMI) h s = Some (os, sf) /\\
+                Inv (Bty fwidth) sf /\\ stoppedb sf = false /\\ all_false os.
+Proof.
+  exact (stop_never_before_inst _ _ _ _ C12_GenCpuAlt.C12_step_GenCpuAlt C12_GenCpuAlt.C12_reset_GenCpuAlt C12_GenCpuAlt.C12_irq_GenCpuAlt
+           C12_GenCpuAlt.C12_nmi_GenCpuAlt C12_cb_GenCpuAlt.C12_stop_fetch_GenCpuAlt).
+Qed.
+Definition C12_stop_never_before_since_reset_GenCpu65 := stop_never_before_since_reset_inst _ _ _ _ C12_GenCpu65.C12_step_GenCpu65 C12_GenCpu65.C12_reset_GenCpu65
+  C12_GenCpu65.C12_irq_GenCpu65 C12_GenCpu65.C12_nmi_GenCpu65 C12_cb_GenCpu65.C12_stop_fetch_GenCpu65.
+Definition C12_stop_never_before_since_reset_GenCpuAlt := stop_never_before_since_reset_inst _ _ _ _ C12_GenCpuAlt.C12_step_GenCpuAlt C12_GenCpuAlt.C12_reset_GenCpuAlt
+  C12_GenCpuAlt.C12_irq_GenCpuAlt C12_GenCpuAlt.C12_nmi_GenCpuAlt C12_cb_GenCpuAlt.C12_stop_fetch_GenCpuAlt.
+
+(* non-vacuity: the state of C12_cb's example with the opcode at the IRQ target replaced by $DB: the Step enters the
+   interrupt, fetches $DB at $001234, sets Stopped; a state whose next opcode is not $DB satisfies no_stp for [CStep] *)
+Definition ex_stp_state : st :=
+  mkst C12_cb_GenCpu65.ex_regs (fun a => if a =? 4660 then %(stp)d else C12_cb_GenCpu65.ex_mem a) [] (fun a => a =? 4660) true.
+Definition ex_stp_obs : option (bool * Z * Z * list ev) :=
+  match GenCpu65.Step ex_stp_state with
+  | Ok (_, b) s' => Some (b, get f_Stopped ex_stp_state, get f_Stopped s', firstn 2 (trace s'))
+  | Panic => None
+  end.
+(* reported flag, Stopped before, Stopped after, the two newest events: the fetch of $DB at $001234 after OnPC($001234) *)
+Example ex_stp : ex_stp_obs = Some (true, 0, 1, [EvR 4660 %(stp)d; EvPC 4660]).
+Proof. vm_compute. reflexivity. Qed.
+
+Definition C12_stop_all := (C12_stop_only_stp_GenCpu65, C12_stop_only_stp_GenCpuAlt, C12_stop_never_before_GenCpu65, C12_stop_never_before_GenCpuAlt,
+                            C12_stop_never_before_since_reset_GenCpu65, C12_stop_never_before_since_reset_GenCpuAlt, ex_stp).
+Print Assumptions C12_stop_all.
+""" % {"stp": STP_OPCODE}
